@@ -8,19 +8,21 @@ argument-free out-states, stored out-states discarded and running computations d
 process is registered, terminated and joined.  Not decided: schedule independence and deadlock freedom as wholes.
 """
 import ast
-from typing import Dict, List, Optional, Set, Tuple
+from typing import Dict, FrozenSet, List, Optional, Set, Tuple
 
 from ..core import AnalysisError, Loc, Report, Source, norm
 from ..mediator_rules import check_run_loops
 from ..pyfront import Program, body_without_docstring, param_names, self_attr
 from ..guards import path_conditions
 from ..normalize import canon, flat
+from ..resolve import Resolver, split_atom
 from ..selftest import Edit
 
 ID = "C20"
 MPM = "jellyfysh/mediator/multi_process_mediator/multi_process_mediator.py"
 
 # stage machine of one event handler's worker, as seen by the parent (frozen oracle, DESIGN.md R20.2)
+STAGES = ("idle", "event_time_started", "suspended", "out_state_started")
 PATTERNS = {
     "start":   {"ops": {"start.set"}, "optional": {"send"}, "from": {"idle"}, "to": "event_time_started"},
     "time":    {"ops": {"recv"}, "optional": set(), "from": {"event_time_started"}, "to": "suspended"},
@@ -131,68 +133,248 @@ def check_parent_protocol(prog: Program, rep: Report) -> None:
             if isinstance(n, ast.Call) and norm(n.func).endswith("multiprocessing.Process"):
                 for k in n.keywords:
                     if k.arg == "args" and isinstance(k.value, ast.Tuple) and len(k.value.elts) >= 3:
-                        a1, a2 = k.value.elts[1], k.value.elts[2]
-                        if isinstance(a1, ast.Subscript) and isinstance(a2, ast.Subscript):
-                            start_attr, cont_attr = self_attr(a1.value), self_attr(a2.value)
+                        def table_of(a: ast.AST) -> Optional[str]:
+                            """the table attribute an event handed to the worker is filed in: self.T[..] directly, or a local that
+                            is also stored as self.T[..] = local"""
+                            if isinstance(a, ast.Subscript):
+                                return self_attr(a.value)
+                            if isinstance(a, ast.Name):
+                                for st_ in ast.walk(sp):
+                                    if isinstance(st_, ast.Assign) and isinstance(st_.value, ast.Name) and st_.value.id == a.id:
+                                        for t_ in st_.targets:
+                                            if isinstance(t_, ast.Subscript) and self_attr(t_.value):
+                                                return self_attr(t_.value)
+                            return None
+                        a1, a2 = table_of(k.value.elts[1]), table_of(k.value.elts[2])
+                        if a1 and a2:
+                            start_attr, cont_attr = a1, a2
     if not (start_attr and cont_attr):
         raise AnalysisError("start / continue event tables not identified from the Process arguments")
-    blocks: List[Block] = []
-    _blocks(body_without_docstring(run), {}, state_attr, blocks)
-    n_sites = 0
+    # ---- abstract interpretation of the parent's pipe protocol ------------------------------------------------------------
+    # For every pipe expression (the loop variable of a loop over pipes, or a looked-up pipe such as self._pipes[handler]) the
+    # run loop is executed abstractly, path by path: the abstract state is (set of stages the worker may be in, operations
+    # performed since the last stage update).  Stage tests (==, !=, in, not in, also through a local) refine the set; every
+    # stage update must be a legal step of the stage machine for the operations performed since the previous one, on every path.
+    run_c = canon(prog, mp, run)      # private helpers inlined (a block moved into a helper is still part of the loop)
+    R = Resolver(run_c)
+    ALL = frozenset(STAGES)
+    site_ok: Dict[int, Tuple[bool, ast.AST, str]] = {}
     seen_patterns: Set[str] = set()
-    for b in blocks:
-        ops: Dict[str, List[Tuple[str, ast.AST]]] = {}
-        assigns: Dict[str, List[Tuple[str, ast.AST]]] = {}
-        for st in b.stmts:
+    n_sites = 0
+
+    def key_text(e: ast.AST) -> str:
+        return norm(R.res(e))
+
+    def binds_direct(loop: ast.AST) -> Set[str]:
+        """names (re)bound per iteration of this loop: its target and the locals assigned in its body outside nested loops"""
+        out: Set[str] = {x.id for x in ast.walk(loop.target) if isinstance(x, ast.Name)} if isinstance(loop, ast.For) else set()
+
+        def scan(stmts: List[ast.stmt]) -> None:
+            for st in stmts:
+                if isinstance(st, (ast.For, ast.While)):
+                    continue
+                if isinstance(st, (ast.Assign, ast.AugAssign, ast.AnnAssign)):
+                    for t in (st.targets if isinstance(st, ast.Assign) else [st.target]):
+                        out.update(x.id for x in ast.walk(t) if isinstance(x, ast.Name) and isinstance(x.ctx, ast.Store))
+                for fld in ("body", "orelse", "finalbody"):
+                    b_ = getattr(st, fld, None)
+                    if isinstance(b_, list) and b_ and isinstance(b_[0], ast.stmt):
+                        scan(b_)
+                if isinstance(st, ast.Try):
+                    for h in st.handlers:
+                        scan(h.body)
+        scan(loop.body)
+        return out
+
+    def stage_test(test: ast.AST) -> Optional[Tuple[str, FrozenSet[str]]]:
+        """(pipe key, stages for which the test is true)"""
+        t = R.res(test)
+        if isinstance(t, ast.UnaryOp) and isinstance(t.op, ast.Not):
+            r = stage_test(t.operand)
+            return None if r is None else (r[0], ALL - r[1])
+        if isinstance(t, ast.Compare) and len(t.ops) == 1:
+            l, r_, op = t.left, t.comparators[0], t.ops[0]
+            if isinstance(r_, ast.Subscript) and self_attr(r_.value) == state_attr and isinstance(op, (ast.Eq, ast.NotEq)):
+                l, r_ = r_, l
+            if isinstance(l, ast.Subscript) and self_attr(l.value) == state_attr:
+                vals = None
+                if isinstance(r_, ast.Attribute) and norm(r_.value) == "EventHandlerState":
+                    vals = {r_.attr}
+                elif isinstance(r_, (ast.Tuple, ast.List, ast.Set)) and all(isinstance(x, ast.Attribute) for x in r_.elts):
+                    vals = {x.attr for x in r_.elts}
+                if vals is not None:
+                    if isinstance(op, (ast.Eq, ast.In, ast.Is)):
+                        return norm(l.slice), frozenset(vals)
+                    if isinstance(op, (ast.NotEq, ast.NotIn, ast.IsNot)):
+                        return norm(l.slice), ALL - frozenset(vals)
+        return None
+
+    def ops_of(node: ast.AST, key: str) -> List[Tuple[str, ast.AST]]:
+        out = []
+        for n in ast.walk(node):
+            if isinstance(n, ast.Call) and isinstance(n.func, ast.Attribute):
+                f = n.func
+                if f.attr in ("recv", "send") and key_text(f.value) == key:
+                    out.append((f.attr, n))
+                if f.attr == "set" and isinstance(f.value, ast.Subscript) and self_attr(f.value.value) in (start_attr, cont_attr) \
+                        and key_text(f.value.slice) == key:
+                    out.append(("start.set" if self_attr(f.value.value) == start_attr else "continue.set", n))
+        return sorted(out, key=lambda kv: (kv[1].lineno, kv[1].col_offset))
+
+    def legal(frm: str, ops: Tuple[str, ...], to: str) -> Optional[str]:
+        for name, p_ in PATTERNS.items():
+            if frm in p_["from"] and to == p_["to"] and p_["ops"] <= set(ops) <= (p_["ops"] | p_["optional"]):
+                if "send" in ops and [k for k in ops if k.endswith(".set")] and ops.index("send") < min(i for i, k in enumerate(ops) if k.endswith(".set")):
+                    return None
+                if len([k for k in ops if k == "recv"]) > 1:
+                    return None
+                return name
+        return None
+
+    # abstract state on one path: (stages the stage table may hold now, stages it may have held at region entry, events so far);
+    # events are pipe operations and stage updates in execution order.  A path is legal if its events can be cut into segments
+    # with one stage update each such that every segment is a legal step (the operations of a step may stand before or after
+    # its stage update, as in the code: `stage = suspended; x = pipe.recv()`).
+    def note(node: ast.AST, ok: bool, desc: str) -> None:
+        prev = site_ok.get(id(node))
+        site_ok[id(node)] = (ok and (prev[0] if prev else True), node, desc if (not ok or prev is None) else prev[2])
+
+    Ev = Tuple[str, str, int]
+    State_ = Tuple[FrozenSet[str], FrozenSet[str], Tuple[Ev, ...]]
+    nodes_by_id: Dict[int, ast.AST] = {}
+
+    def parse(init: FrozenSet[str], events: Tuple[Ev, ...]) -> Optional[List[str]]:
+        """names of the steps if the event sequence is a legal walk of the stage machine, else None"""
+        upds = [i for i, e in enumerate(events) if e[0] == "upd"]
+        if not upds:
+            return [] if not events else None
+        gaps = [[e[1] for e in events[(upds[k - 1] + 1 if k else 0):upds[k]]] for k in range(len(upds))]
+        tail = [e[1] for e in events[upds[-1] + 1:]]
+
+        def go(k: int, frm_set: FrozenSet[str], carried: List[str]) -> Optional[List[str]]:
+            # carried: operations standing before update k that belong to it
+            to = events[upds[k]][1]
+            after = gaps[k + 1] if k + 1 < len(upds) else tail
+            last = k + 1 == len(upds)
+            for cut in (range(len(after), len(after) + 1) if last else range(len(after) + 1)):
+                ops = tuple(carried + after[:cut])
+                names = {legal(f_, ops, to) for f_ in frm_set}
+                if frm_set == ALL:
+                    names = {x for x in names if x in ("start", "resume")} or {None}
+                if None in names:
+                    continue
+                if last:
+                    return sorted(x for x in names if x)
+                rest = go(k + 1, frozenset({to}), after[cut:])
+                if rest is not None:
+                    return sorted(x for x in names if x) + rest
+            return None
+        return go(0, init, gaps[0])
+
+    def end_of_path(states: Set[State_], where: ast.AST, key: str) -> None:
+        for cur, init, events in states:
+            if not events:
+                continue
+            names = parse(init, events)
+            first = next((nodes_by_id[e[2]] for e in events if e[0] == "upd"), None) or nodes_by_id[events[0][2]]
+            seq = [e[1] if e[0] == "op" else f"stage={e[1]}" for e in events]
+            note(first, names is not None, f"pipe `{key}` entering in stage {sorted(init) if init != ALL else 'not tested'}: {seq}")
+            if names:
+                seen_patterns.update(names)
+
+    def region(stmts: List[ast.stmt], key: str, states: Set[State_], bound: Set[str]) -> Set[State_]:
+        for st in stmts:
+            if not states:
+                return states
+            if isinstance(st, ast.If):
+                r = stage_test(st.test)
+                if r is not None and key_text(ast.parse(r[0], mode="eval").body) == key:
+                    def refine(state: State_, keep: FrozenSet[str]) -> Optional[State_]:
+                        cur, init, ev = state
+                        if not cur & keep:
+                            return None
+                        untouched = not any(e[0] == "upd" for e in ev)
+                        return (cur & keep, init & keep if untouched else init, ev)
+                    t_states = {x for x in (refine(s_, r[1]) for s_ in states) if x is not None}
+                    f_states = {x for x in (refine(s_, ALL - r[1]) for s_ in states) if x is not None}
+                else:
+                    extra = tuple(("op", k, id(n)) for k, n in ops_of(st.test, key))
+                    for k, n in ops_of(st.test, key):
+                        nodes_by_id[id(n)] = n
+                    t_states = f_states = {(c, i, ev + extra) for c, i, ev in states}
+                states = region(st.body, key, set(t_states), bound) | region(st.orelse, key, set(f_states), bound)
+                continue
+            if isinstance(st, (ast.For, ast.While)):
+                if binds_direct(st) & {x.id for x in ast.walk(ast.parse(key, mode="eval")) if isinstance(x, ast.Name)}:
+                    continue   # this loop binds the key: analysed as a region of its own
+                if not ops_of(st, key) and not any(isinstance(n, ast.Subscript) and self_attr(n.value) == state_attr and key_text(n.slice) == key
+                                                   for n in ast.walk(st)):
+                    continue   # the loop does not touch this pipe
+                states = states | region(st.body, key, set(states), bound)
+                continue
+            if isinstance(st, ast.Try):
+                out_ = region(st.body, key, set(states), bound)
+                for h in st.handlers:
+                    out_ |= region(h.body, key, set(states), bound)
+                states = region(st.finalbody, key, out_, bound) if st.finalbody else out_
+                continue
+            if isinstance(st, ast.With):
+                states = region(st.body, key, states, bound)
+                continue
+            if isinstance(st, ast.Raise):
+                return set()
+            if isinstance(st, (ast.Return, ast.Continue, ast.Break)):
+                end_of_path(states, st, key)
+                return set()
+            if isinstance(st, ast.Assert):
+                continue
+            evs: List[Tuple[int, int, Ev]] = []
+            for k, n in ops_of(st, key):
+                nodes_by_id[id(n)] = n
+                evs.append((n.lineno, n.col_offset, ("op", k, id(n))))
             for n in ast.walk(st):
-                if isinstance(n, ast.Call) and isinstance(n.func, ast.Attribute):
-                    f = n.func
-                    if f.attr in ("recv", "send") and isinstance(f.value, ast.Name):
-                        ops.setdefault(f.value.id, []).append((f.attr, n))
-                    if f.attr == "set" and isinstance(f.value, ast.Subscript) and self_attr(f.value.value) in (start_attr, cont_attr):
-                        kind = "start.set" if self_attr(f.value.value) == start_attr else "continue.set"
-                        ops.setdefault(norm(f.value.slice), []).append((kind, n))
                 if isinstance(n, ast.Assign) and isinstance(n.targets[0], ast.Subscript) and self_attr(n.targets[0].value) == state_attr \
-                        and isinstance(n.value, ast.Attribute):
-                    assigns.setdefault(norm(n.targets[0].slice), []).append((n.value.attr, n))
-        for x in sorted(set(ops) | set(assigns)):
-            kinds = {k for k, _ in ops.get(x, [])}
-            tos = [s for s, _ in assigns.get(x, [])]
-            node = (ops.get(x) or assigns.get(x))[0][1]
-            loc = Loc(MPM, node.lineno, "MultiProcessMediator.run")
-            n_sites += len(ops.get(x, []))
-            guard = b.guards.get(x)
-            match = None
-            for name, p in PATTERNS.items():
-                if p["ops"] <= kinds <= (p["ops"] | p["optional"]) and tos == [p["to"]] and (guard is None or guard in p["from"]):
-                    if name == "discard" and guard is None:
-                        continue
-                    if name in ("time", "out") and guard is None:
-                        continue
-                    match = name
-            if match:
-                seen_patterns.add(match)
-            desc = f"pipe `{x}` under guard {guard}: operations {sorted(kinds)} -> stage {tos}"
-            rep.ob("R20.2-legal-transition", match is not None, loc, desc,
-                   "this block does not perform exactly one legal stage transition of the pipe protocol (idle -start[,send]-> "
-                   "event_time_started -recv-> suspended -continue[,send]-> out_state_started -recv-> idle; suspended -> idle "
-                   "without communication): a receive in the wrong stage reads the wrong object or blocks forever, a missing "
-                   "receive leaves a stale out-state in the pipe")
-            # a receive must be unconditional inside its stage block (a skipped receive leaves a stale message in the pipe)
-            for k, node in ops.get(x, []):
-                if k == "recv":
-                    nested = any(isinstance(st, ast.If) and any(y is node for y in ast.walk(st)) and not any(y is node for y in ast.walk(st.test))
-                                 for st in b.stmts)
-                    rep.ob("R20.2-receive-unconditional", not nested, Loc(MPM, node.lineno, "MultiProcessMediator.run"),
-                           f"recv on `{x}` in stage {guard}",
-                           "in this stage the worker will send exactly one message; receiving it only under a further condition "
-                           "(e.g. only if it has already arrived) leaves it in the pipe, where it is later read as something else")
-            # a send must follow its set() in the block
-            seq = [k for k, _ in sorted(ops.get(x, []), key=lambda kv: (kv[1].lineno, kv[1].col_offset))]
-            if "send" in seq:
-                first_set = min((i for i, k in enumerate(seq) if k.endswith(".set")), default=None)
-                rep.ob("R20.2-send-after-wake", first_set is not None and first_set < seq.index("send"), loc, f"{desc}: {seq}",
-                       "arguments are sent to a worker that has not been woken for them")
+                        and key_text(n.targets[0].slice) == key and isinstance(n.value, ast.Attribute) and norm(n.value.value) == "EventHandlerState":
+                    nodes_by_id[id(n)] = n
+                    evs.append((n.lineno + 10 ** 6 if n is st else n.lineno, n.col_offset, ("upd", n.value.attr, id(n))))
+            if evs:
+                seq = tuple(e for _, _, e in sorted(evs))
+                new_states: Set[State_] = set()
+                for cur, init, ev in states:
+                    c2 = cur
+                    for e in seq:
+                        if e[0] == "upd":
+                            c2 = frozenset({e[1]})
+                    new_states.add((c2, init, ev + seq))
+                states = new_states
+        return states
+    # regions: every loop whose variable is used as a pipe key, and the whole body for the other keys
+    keys: Set[str] = set()
+    for n in ast.walk(run_c):
+        if isinstance(n, ast.Subscript) and self_attr(n.value) in (state_attr, start_attr, cont_attr):
+            keys.add(key_text(n.slice))
+        if isinstance(n, ast.Call) and isinstance(n.func, ast.Attribute) and n.func.attr in ("recv", "send"):
+            keys.add(key_text(n.func.value))
+    loops_ = [n for n in ast.walk(run_c) if isinstance(n, (ast.For, ast.While))]
+    for key in sorted(keys):
+        key_names = {x.id for x in ast.walk(ast.parse(key, mode="eval")) if isinstance(x, ast.Name)}
+        binders = [lp for lp in loops_ if binds_direct(lp) & key_names]
+        n_sites += len(ops_of(run_c, key))
+        if binders:
+            for lp in binders:
+                if any(lp is not o and any(x is lp for x in ast.walk(o)) and o in binders for o in binders):
+                    pass
+                end = region(lp.body, key, {(ALL, ALL, ())}, set())
+                end_of_path(end, lp, key)
+        else:
+            end = region(body_without_docstring(run_c), key, {(ALL, ALL, ())}, set())
+            end_of_path(end, run_c, key)
+    for ok, node, desc in site_ok.values():
+        rep.ob("R20.2-legal-transition", ok, Loc(MPM, getattr(node, "lineno", run.lineno), "MultiProcessMediator.run"), desc,
+               "on some path this is not a legal step of the pipe protocol (idle -start[,send]-> event_time_started -recv-> suspended "
+               "-continue[,send]-> out_state_started -recv-> idle; suspended -> idle without communication): a receive in the wrong "
+               "stage reads the wrong object or blocks forever, a missing or conditional receive leaves a stale message in the pipe, "
+               "arguments sent before the wake-up are not read")
     rep.ob("R20.2-all-transitions-present", seen_patterns == set(PATTERNS), Loc(MPM, run.lineno, "MultiProcessMediator.run"),
            f"transitions found: {sorted(seen_patterns)}",
            f"the run loop no longer performs the transitions {sorted(set(PATTERNS) - seen_patterns)}")
@@ -318,7 +500,9 @@ def check_parent_protocol(prog: Program, rep: Report) -> None:
                 _, o2n = execute(stages[1], {S: False, C: False})
                 ok1 = o1 == "fall" and [x for x in a1 if x not in ("acquire", "release")] == [f"clear {S}", "send_event_time"] \
                     and a1.count("acquire") == a1.count("release") and o1c == "raise" and o1n == "raise"
-                ok2 = o2s == "continue" and not a2s and o2c == "fall" and a2c == [f"clear {C}", "send_out_state"] and o2n == "raise"
+                # stage 2 is the end of the loop body: falling off its end and `continue` are the same
+                ok2 = o2s in ("continue", "fall") and not a2s and o2c in ("fall", "continue") and a2c == [f"clear {C}", "send_out_state"] \
+                    and o2n == "raise"
                 if ok1 and ok2:
                     found = (S, C)
                 if "unknown" in (o1, o1c, o1n, o2s, o2c, o2n):
@@ -331,7 +515,8 @@ def check_parent_protocol(prog: Program, rep: Report) -> None:
 
 def check_precompute_and_trash(prog: Program, rep: Report) -> None:
     mp = prog.class_named("MultiProcessMediator")
-    run = mp.methods["run"]
+    run = canon(prog, mp, mp.methods["run"])
+    RR = Resolver(run)
     # candidates for pre-computation: appended to a deque only when the handler takes no out-state arguments
     appends = [n for n in ast.walk(run) if isinstance(n, ast.Call) and isinstance(n.func, ast.Attribute) and n.func.attr == "append"
                and isinstance(n.func.value, ast.Name) and n.args and isinstance(n.args[0], ast.Name)]
@@ -339,11 +524,11 @@ def check_precompute_and_trash(prog: Program, rep: Report) -> None:
               and n.func.attr == "popleft"}
     pre = [a for a in appends if norm(a.func.value) in deques]
     for a in pre:
-        guard = None
-        for n in ast.walk(run):
-            if isinstance(n, ast.If) and any(x is a for st in n.body for x in ast.walk(st)):
-                guard = n.test
-        ok = guard is not None and "number_send_out_state_arguments" in norm(guard) and norm(guard).startswith("not ")
+        # the append is reached only when the handler takes no out-state arguments (whichever way the test is written)
+        conds = path_conditions(body_without_docstring(run), a) or []
+        ok = any(c.startswith("not ") and c.endswith(".number_send_out_state_arguments") for c in conds) \
+            or any(split_atom(c) is not None and split_atom(c)[0].endswith(".number_send_out_state_arguments") and split_atom(c)[1] == "=="
+                   and split_atom(c)[2] == "0" for c in conds)
         rep.ob("R20.3-precompute-only-without-arguments", ok, Loc(MPM, a.lineno, "MultiProcessMediator.run"), a,
                "an out-state may be computed ahead of time only for handlers without out-state arguments (arguments depend on "
                "the global state at commit time)")
@@ -361,6 +546,8 @@ def check_precompute_and_trash(prog: Program, rep: Report) -> None:
     rep.ob("R20.3-trash-event", f"trash_event({var})" in txt, loc, "trash loop: scheduler.trash_event", "trashed handlers must be trashed in the scheduler")
     dels = [n for n in ast.walk(lp) if isinstance(n, ast.Delete) and any(isinstance(t, ast.Subscript) and self_attr(t.value) == "_out_states"
                                                                           and norm(t.slice) == var for t in n.targets)]
+    dels += [n for n in ast.walk(lp) if isinstance(n, ast.Call) and isinstance(n.func, ast.Attribute) and n.func.attr == "pop"
+             and self_attr(n.func.value) == "_out_states" and n.args and norm(n.args[0]) == var]
     rep.ob("R20.3-discard-precomputed", len(dels) == 1, loc, "trash loop: del self._out_states[handler]",
            "a pre-computed out-state of a trashed handler must be discarded, otherwise it is committed later for a stale in-state")
     drains = [n for n in ast.walk(lp) if isinstance(n, ast.Call) and isinstance(n.func, ast.Attribute) and n.func.attr == "recv"]
@@ -370,7 +557,9 @@ def check_precompute_and_trash(prog: Program, rep: Report) -> None:
     # where the committed out-state comes from: keyed by the committing handler
     reads = [n for n in ast.walk(run) if isinstance(n, ast.Subscript) and self_attr(n.value) == "_out_states" and isinstance(n.ctx, ast.Load)]
     for r in reads:
-        rep.ob("R20.3-out-state-of-committing-handler", "_event_handler_with_shortest_event_time" in norm(r.slice),
+        committing = RR.text(r.slice)
+        from_scheduler = "_event_handler_with_shortest_event_time" in committing or committing.endswith("get_succeeding_event()")
+        rep.ob("R20.3-out-state-of-committing-handler", from_scheduler,
                Loc(MPM, r.lineno, "MultiProcessMediator.run"), r, "the committed out-state must be the one of the handler returned by the scheduler")
 
 
@@ -382,8 +571,10 @@ def check_processes(prog: Program, rep: Report) -> None:
             if isinstance(n, ast.Call) and norm(n.func).endswith("multiprocessing.Process"):
                 starts.append((m, n))
     for m, n in starts:
+        RM = Resolver(m)
         appended = any(isinstance(c, ast.Call) and isinstance(c.func, ast.Attribute) and c.func.attr == "append"
-                       and self_attr(c.func.value) and any(x is n for x in ast.walk(c)) for c in ast.walk(m))
+                       and self_attr(c.func.value) and c.args and (any(x is n for x in ast.walk(c)) or RM.text(c.args[0]) == RM.text(n))
+                       for c in ast.walk(m))
         rep.ob("R20.4-process-registered", appended, Loc(MPM, n.lineno, f"MultiProcessMediator.{m.name}"), n,
                "every worker process must be recorded so that post_run can end it")
     pr = mp.methods.get("post_run")
